@@ -7,6 +7,7 @@ import (
 	"encoding/json"
 	"fmt"
 	"math/rand/v2"
+	"os"
 	"runtime/debug"
 	"sort"
 	"strings"
@@ -123,7 +124,16 @@ type RunResult struct {
 	ReplayPath string         `json:"replay_path,omitempty"`
 	Expected   *Violation     `json:"expected,omitempty"`
 	OrigSteps  int            `json:"orig_steps,omitempty"`
+	// MinIncomplete: the wall-clock backstop ended minimisation.
+	MinIncomplete bool `json:"min_incomplete,omitempty"`
+	MinCandidates int  `json:"min_candidates,omitempty"`
 }
+
+// DebugAfterStep is a development hook (nil in checks).
+var DebugAfterStep func(rc *RunCtx, i int)
+
+// StepSink, when set, sees the configuration and every step before it is executed.
+var StepSink func(kind string, v any)
 
 var profiles = map[string]*Profile{}
 
@@ -188,8 +198,16 @@ func runInBubble(p *Profile, o RunOpts, res *RunResult) {
 	} else {
 		cfg = p.Config(r)
 		cfg.Profile = p.Name
+		cfg.Property = p.Property
+	}
+	if os.Getenv("VERIF_TRACE") != "" {
+		cfg.Trace = true
 	}
 	res.Config = cfg
+	if StepSink != nil {
+		StepSink("begin", map[string]any{"seed": o.Seed, "profile": p.Name, "property": p.Property, "index": CurrentIndex})
+		StepSink("config", cfg)
+	}
 	rc := &RunCtx{P: p, Cfg: cfg, R: r, State: map[string]any{}, Excluded: map[int]string{}, log: newLog(o.KeepLog)}
 	var viol *Violation
 	defer func() {
@@ -202,6 +220,9 @@ func runInBubble(p *Profile, o RunOpts, res *RunResult) {
 			msg := normErr(fmt.Sprint(pv))
 			stack := string(debug.Stack())
 			viol = &Violation{Property: p.Property, Oracle: "no_panic", Class: "panic:" + panicClass(msg, stack), Detail: msg + "\n" + trimStack(stack), Step: rc.I}
+		}
+		if n := len(rc.Trace); n > 0 && rc.Trace[n-1].Op == "par" && rc.W != nil && rc.Trace[n-1].Sched == nil {
+			rc.Trace[n-1].Sched = rc.W.LastSchedTrace
 		}
 		res.Violation = viol
 		res.Trace = rc.Trace
@@ -259,7 +280,14 @@ func runInBubble(p *Profile, o RunOpts, res *RunResult) {
 				b.BeforeStep(rc, i, st)
 			}
 		}
+		w.stepIndex = i
+		if StepSink != nil {
+			StepSink("step", st)
+		}
 		sr := w.Exec(st)
+		if st.Op == "par" {
+			rc.Trace[i].Sched = w.LastSchedTrace // the schedule as decided is part of the trace
+		}
 		rc.Outs = append(rc.Outs, sr.Out)
 		rc.log.add(fmt.Sprintf("%d %s -> %s", i, st.String(), describe(&sr)))
 		if o.KeepLog {
@@ -267,6 +295,14 @@ func runInBubble(p *Profile, o RunOpts, res *RunResult) {
 			if rc.Cfg.Trace {
 				rc.dumpServer()
 			}
+		}
+		if DebugAfterStep != nil {
+			DebugAfterStep(rc, i)
+		}
+		if sr.Viol != nil {
+			viol = sr.Viol
+			viol.Step = i
+			return
 		}
 		if sr.Out == "hang" {
 			viol = &Violation{Property: p.Property, Oracle: "no_hang", Class: "hang:" + st.Op, Detail: "step did not finish: " + st.String(), Step: i}
@@ -276,6 +312,13 @@ func runInBubble(p *Profile, o RunOpts, res *RunResult) {
 			if v := m.AfterStep(rc, i, st, &sr); v != nil {
 				viol = v
 				return
+			}
+			// the sub-steps of a parallel section are judged like ordinary steps
+			for k := range sr.Sub {
+				if v := m.AfterStep(rc, i, &st.Sub[k], &sr.Sub[k]); v != nil {
+					viol = v
+					return
+				}
 			}
 		}
 	}
@@ -433,9 +476,15 @@ func (rc *RunCtx) dumpState() {
 		}
 		for _, d := range sortedDocs(sc) {
 			sd := sc.Docs[d]
-			rc.log.add(fmt.Sprintf("    c%d d%d st=%d cp=%s local=%v vv=%s garbage=%d %s", sc.Idx, d, int(sd.Doc.Status()),
-				sd.Doc.Checkpoint().String(), sd.Doc.HasLocalChanges(), rankVV(rc, sd.Doc.VersionVector().Marshal()), sd.Doc.GarbageLen(), clip(sd.Doc.Marshal())))
+			// NOTE: GarbageLen() is not part of the compared log: the removedAt of an object
+			// member that lost its key depends on the order in which a snapshot lists the
+			// members (Go map order at the encoder, replayed by the decoder's LWW), so the
+			// moment such a tombstone is purged differs from process to process. Content,
+			// vectors and checkpoints do not depend on it.
+			rc.log.add(fmt.Sprintf("    c%d d%d st=%d cp=%s local=%v vv=%s %s", sc.Idx, d, int(sd.Doc.Status()),
+				sd.Doc.Checkpoint().String(), sd.Doc.HasLocalChanges(), rankVV(rc, sd.Doc.VersionVector().Marshal()), clip(sd.Doc.Marshal())))
 			if rc.Cfg.Trace {
+				rc.log.add(fmt.Sprintf("        garbage=%d", sd.Doc.GarbageLen()))
 				rc.log.add("        " + rankVV(rc, structure(sd.Doc.RootObject())))
 			}
 		}
